@@ -956,10 +956,16 @@ func (w *world) ownVote(j int, h int64, r int32, kind string) (types.BlockID, bo
 }
 
 // twistPSH returns a block id with the hash of id and ANOTHER part-set header: a vote for "the same block" that is
-// not a vote for the same block id.
+// not a vote for the same block id (or, one time in four, the same part-set header under another hash).
 func twistPSH(t *rapid.T, id types.BlockID, label string) types.BlockID {
 	out := types.BlockID{Hash: append([]byte(nil), id.Hash...), PartSetHeader: types.PartSetHeader{Total: id.PartSetHeader.Total, Hash: append([]byte(nil), id.PartSetHeader.Hash...)}}
-	switch rapid.IntRange(0, 2).Draw(t, label+".twistHow") {
+	switch rapid.IntRange(0, 3).Draw(t, label+".twistHow") {
+	case 3:
+		// the other way round: the SAME part-set header under another block hash (a block id whose parts a node may
+		// well hold - as the parts of another block)
+		if len(out.Hash) > 0 {
+			out.Hash[0] ^= 1
+		}
 	case 0:
 		out.PartSetHeader.Total++
 	case 1:
